@@ -15,6 +15,7 @@ references to everything a parse created must die once the caller drops the resu
 from __future__ import annotations
 
 import gc
+import time
 import json
 import sys
 import threading
@@ -66,15 +67,18 @@ class Scheduler:
         self.turn = None
         self.waiting = set()
         self.done = set()
+        self.free = False
 
     def yield_point(self, pid):
         with self.cv:
             self.waiting.add(pid)
             self.cv.notify_all()
-            while self.turn != pid:
+            while self.turn != pid and not self.free:
                 self.cv.wait()
-            self.turn = None
+            if self.turn == pid:
+                self.turn = None
             self.waiting.discard(pid)
+            self.cv.notify_all()
 
     def finish(self, pid):
         with self.cv:
@@ -82,16 +86,28 @@ class Scheduler:
             self.cv.notify_all()
 
     def step(self, pid) -> bool:
+        """False = the thread is finished, or it did not arrive at a yield point in time (it is blocked on something the
+        threads share, e.g. a lock: the schedule cannot be replayed; every thread is then released to run freely)"""
         with self.cv:
+            if self.free:
+                return False
+            end = time.monotonic() + STEP_TIMEOUT
             while pid not in self.waiting and pid not in self.done:
-                self.cv.wait()
+                if not self.cv.wait(max(0.0, end - time.monotonic())) and time.monotonic() >= end:
+                    return self._release()
             if pid in self.done:
                 return False
             self.turn = pid
             self.cv.notify_all()
             while self.turn == pid or (pid not in self.waiting and pid not in self.done):
-                self.cv.wait()
+                if not self.cv.wait(max(0.0, end - time.monotonic())) and time.monotonic() >= end:
+                    return self._release()
             return True
+
+    def _release(self) -> bool:
+        self.free = True
+        self.cv.notify_all()
+        return False
 
 
 def install_yield_points():
@@ -202,6 +218,17 @@ def edit_result(db):
     db.add(nt)
 
 
+STEP_TIMEOUT = 5.0
+
+
+def live_parse_objects() -> int:
+    """parser and blueprint objects alive in the process (there is no parse in progress when this is called)"""
+    from pydbml.parser.parser import PyDBMLParser
+    from pydbml.parser.blueprints import Blueprint
+    gc.collect()
+    return sum(1 for o in gc.get_objects() if isinstance(o, (PyDBMLParser, Blueprint)))
+
+
 def run_case(it) -> Dict[str, Any]:
     global _SCHED
     from pydbml import PyDBML
@@ -211,6 +238,8 @@ def run_case(it) -> Dict[str, Any]:
     results: List[Any] = [None] * n
     dbs: List[Any] = [None] * n
     fps = [grammar_fp()]
+    blocked = False
+    live: List[int] = []
     if it['kind'] == 'schedule':
         install_yield_points()
         _SCHED = Scheduler()
@@ -230,13 +259,16 @@ def run_case(it) -> Dict[str, Any]:
             t.start()
         sched = list(it['sched'])
         k = 0
-        while len(_SCHED.done) < n:
+        while len(_SCHED.done) < n and not _SCHED.free:
             pid = sched[k % len(sched)]
             k += 1
             if _SCHED.step(pid):
                 fps.append(grammar_fp())
         for t in ths:
-            t.join()
+            t.join(60)
+        if any(t.is_alive() for t in ths):
+            raise core.Machinery('C11: a parse thread did not finish within 60 s after being released')
+        blocked = _SCHED.free
         _SCHED = None
     elif it['kind'] == 'threads':
         old = sys.getswitchinterval()
@@ -261,6 +293,7 @@ def run_case(it) -> Dict[str, Any]:
                 dbs[i] = PyDBML(texts[i], allow_properties=it['allows'][i])
             except Exception as ex:
                 results[i] = {'kind': 'error', 'class': pj.classify(ex)}
+            live.append(live_parse_objects())      # (the exception, its traceback and frames are gone here)
             fps.append(grammar_fp())
             if dbs[i] is not None:
                 results[i] = pj.project_db(dbs[i])        # observed BEFORE this result is edited
@@ -280,7 +313,7 @@ def run_case(it) -> Dict[str, Any]:
     gc.collect()
     reclaimed = [all(w() is None for w in ws) for ws in weak]
     return {'tid': it['tid'], 'kind': it['kind'], 'docs': it['docs'], 'allows': it['allows'], 'results': results, 'fps': fps,
-            'shared': sorted(set(shared))[:5], 'reclaimed': reclaimed}
+            'shared': sorted(set(shared))[:5], 'reclaimed': reclaimed, 'live': live, '_blocked': blocked}
 
 
 def _exec_chunk(items):
@@ -354,8 +387,12 @@ def main(argv: List[str]) -> int:
     recs: List[Dict[str, Any]] = []
     for part in core.pmap(_exec_chunk, core.chunked(items, core.NCPU * 2)):
         recs += part
+    nblocked = sum(1 for r in recs if r.pop('_blocked', False))
     verdicts, st = core.validate('TraceConcurrent', 'TraceConcurrent.cfg', recs)
     rep.add_val_stats('TraceConcurrent', st)
+    # a schedule that could not be replayed because a thread blocked outside the yield points (something the threads share, such
+    # as a lock) is no violation by itself; its results were still compared
+    rep.notes['schedules_abandoned_because_a_thread_blocked'] = nblocked
     per: Dict[str, int] = {}
     for rec in recs:
         it = items[rec['tid'] - 1]
@@ -379,6 +416,8 @@ def replay(path: str) -> int:
     it = dict(v['stimulus'])
     it['tid'] = 1
     recs = [run_case(it)]
+    for r in recs:
+        r.pop('_blocked', None)
     verdicts, _ = core.validate('TraceConcurrent', 'TraceConcurrent.cfg', recs)
     print('verdict: %r' % verdicts[1])
     if verdicts[1]:
